@@ -16,7 +16,7 @@ ln -s /verif/build "$W/root/build"; ln -s /verif/findings "$W/root/findings"; ln
 for p in "$@"; do
   bin="$W/vh"
   if [ "$p" = C14 ]; then ( cd "$W/harness" && CGO_ENABLED=1 go build -race -tags verif -o "$W/root/vhrace" ./cmd/vh ) ; fi
-  out=$(cd "$W/root" && timeout 1200 "$bin" "$p" quick --seed 1 --repo "$W/repo" --root "$W/root" 2>&1); echo "$out" | tail -3 | cut -c1-300
+  out=$(cd "$W/root" && timeout 1200 "$bin" "$p" quick --seed 1 --repo "$W/repo" --root "$W/root" 2>&1); echo "$out" | grep -m3 -A6 "^panic\|^goroutine .*running" | cut -c1-200
   echo "$p $(echo "$out" | grep -E '^(VIOLATION|OK )' | tail -1)"
   echo "$out" | grep -E '^(violation|correspondence|obligation):' | head -1 | cut -c1-500 | sed 's/^/    /'
 done
